@@ -229,7 +229,9 @@ fn run_variant(scratch: &Scratch, header_name: &str, text: &str, vname: &str, fl
         // ---- regions, read off the real aggregate (mirror of Model/LayoutRegions.lean)
         let mut regions: Vec<String> = vec![];
         {
-            if agg.packed.is_none() && !agg.is_union && !c.is_union && c.fields.iter().any(|f| !f.is_unit && match (f.off_bits, f.layout) { (Some(o), Some((_, a))) => (o / 8) % a.max(1) != 0, _ => false }) {
+            if agg.packed.is_none() && !agg.is_union && !c.is_union
+                && (c.fields.iter().any(|f| !f.is_unit && match (f.off_bits, f.layout) { (Some(o), Some((_, a))) => (o / 8) % a.max(1) != 0, _ => false })
+                    || (!has_inexact_pad_real(agg) && real_layout.as_ref().map_or(false, |rl| c.fields.iter().any(|f| !f.is_unit && match (&f.name, f.off_bits) { (Some(n), Some(o)) => rl.offsets.iter().any(|(rn, ro)| rn == n && o / 8 < *ro), _ => false })))) {
                 regions.push("unpacked_misaligned_member".into());
             }
             let rejected_shape = agg.packed.is_some() && (agg.align.is_some() || agg.fields.iter().any(|f| inv.contains_align(&f.1, 0)));
@@ -238,10 +240,14 @@ fn run_variant(scratch: &Scratch, header_name: &str, text: &str, vname: &str, fl
                     regions.push("bitfield_unit_misplaced".into());
                 }
             }
-            if let (Some(_), Some(rl), false, false) = (agg.packed, &real_layout, agg.is_union, rejected_shape) {
+            if let (true, Some(rl), false, false) = (agg.packed.is_some() || c.is_packed, &real_layout, agg.is_union, rejected_shape) {
                 if c.fields.iter().any(|f| !f.is_unit && match (&f.name, f.off_bits) { (Some(n), Some(o)) => rl.offsets.iter().any(|(rn, ro)| rn == n && *ro < o / 8), _ => false }) {
                     regions.push("packed_member_gap".into());
                 }
+            }
+            let unit_short = c.is_union && c.fields.iter().any(|f| f.is_unit && f.layout.map_or(false, |(sz, _)| f.bfs.iter().map(|b| b.2 + b.3).max().unwrap_or(0) > 8 * sz));
+            if let (true, false, false, Some((cs, _)), Some(rl)) = (c.is_union, unit_short, rejected_shape, c.layout, &real_layout) {
+                if rl.size < cs { regions.push("union_bitfields_dropped".into()); }
             }
             let n = agg.fields.len();
             if n >= 2 && agg.fields[n - 1].0.starts_with("__bindgen_padding_") && agg.fields[n - 2].0.starts_with("__bindgen_padding_") { regions.push("explicit_padding_double_tail".into()); }
@@ -259,8 +265,11 @@ fn run_variant(scratch: &Scratch, header_name: &str, text: &str, vname: &str, fl
                 regions.push("packedN_misplaces".into());
             }
         }
-        let regions_agree = diffs.is_empty() && regions == m.regions;
-        if diffs.is_empty() && regions != m.regions {
+        regions.sort();
+        let mut model_regions = m.regions.clone();
+        model_regions.sort();
+        let regions_agree = diffs.is_empty() && regions == model_regions;
+        if diffs.is_empty() && regions != model_regions {
             issues.push(mk("correspondence", &c.rust_name, format!("regions: model {:?} harness {:?} | request: {req} | answer: {ans}", m.regions, regions), None));
         }
         let rejected = regions.iter().any(|r| r == "packed_align_conflict" || r == "packed_contains_aligned");
@@ -563,6 +572,9 @@ fn run_header(scratch: &Scratch, tag: &str, text: &str, prog: Option<&Program>, 
     let bad_comps: BTreeSet<String> = issues[before..].iter().filter(|i| i.class == "oracle" && i.variant == "base").map(|i| i.comp.clone()).collect();
     // records whose size / alignment / plain-member offsets differ (what the embedded assertions can see)
     let bad_visible: BTreeSet<String> = issues[before..].iter().filter(|i| i.class == "oracle" && i.variant == "base" && !i.detail.starts_with("[units-only]")).map(|i| i.comp.clone()).collect();
+    // … whose members are themselves laid out correctly (otherwise the true Rust layout of the
+    // record is not the one computed under the faithful-members assumption)
+    let bad_visible: BTreeSet<String> = bad_visible.iter().filter(|t| { let others: BTreeSet<String> = bad_comps.iter().filter(|x| x != t).cloned().collect(); !base.inv.dependents(&others).contains(*t) }).cloned().collect();
     let removed = if do_probes || do_roundtrip { accepted_types(scratch, tag, &base, text, "base", stats, issues) } else { BTreeSet::new() };
     // records whose own layout is wrong, and everything that contains them
     let bad_closure = base.inv.dependents(&bad_comps);
